@@ -203,20 +203,12 @@ pub fn paint_minus_and_plus_lines_side_by_side(
         ));
         output_buffer.push('\n');
 
-        // HACK: The left line number is not getting incremented in `linenumbers_and_styles()`
-        // when the alignment matches a minus with a plus line, so fix that here and take
-        // wrapped lines into account.
-        // Similarly an increment happens when it should not, so undo that.
-        // TODO: Pass this information down into `paint_line()` to set `increment` accordingly.
-        match (left_state, right_state, minus_line_index, plus_line_index) {
-            (State::HunkMinusWrapped, State::HunkPlus(_, _), Some(_), None) => {
-                line_numbers_data.line_number[Left] =
-                    line_numbers_data.line_number[Left].saturating_sub(1)
-            }
-            // Duplicating the logic from `linenumbers_and_styles()` a bit:
-            (State::HunkMinusWrapped | State::HunkPlusWrapped, _, _, _) => {}
-            (_, _, Some(_), Some(_)) => line_numbers_data.line_number[Left] += 1,
-            _ => {}
+        // The left panel is painted without incrementing the line numbers (see `paint_line()`),
+        // and an empty right half does not count anything: the minus line number advances here,
+        // once per minus line, i.e. when the left panel has shown the first row of one.
+        if let (State::HunkMinus(_, _), Some(_)) = (left_state, minus_line_index) {
+            line_numbers_data.line_number[Left] =
+                line_numbers_data.line_number[Left].saturating_add(1)
         }
     }
 }
@@ -389,24 +381,11 @@ fn get_right_fill_style_for_panel(
 
 /// Construct half of a minus or plus line under side-by-side mode, i.e. the half line that
 /// goes in one or other panel. Return a tuple `(painted_half_line, is_empty)`.
-// Suppose the line being displayed is a minus line with a paired plus line. Then both times
-// this function is called, `line_index` will be `Some`. This case proceeds as one would
-// expect: on the first call, we are constructing the left panel line, and we are passed
-// `(Some(index), HunkMinus, Left)`. We pass `(HunkMinus, Left)` to
-// `paint_line`. This has two consequences:
-// 1. `format_and_paint_line_numbers` will increment the minus line number.
-// 2. `format_and_paint_line_numbers` will emit the left line number field, and not the right.
-//
-// The second call does the analogous thing for the plus line to be displayed in the right panel:
-// we are passed `(Some(index), HunkPlus, Right)` and we pass `(HunkPlus, Right)` to `paint_line`,
-// causing it to increment the plus line number and emit the right line number field.
-//
-// Now consider the case where the line being displayed is a minus line with no paired plus line.
-// The first call is as before. On the second call, we are passed `(None, HunkPlus, Right)` and we
-// wish to display the right panel, with its line number container, but without any line number
-// (and without any line contents). We do this by passing (HunkMinus, Right) to `paint_line`, since
-// what this will do is set the line number pair in that function to `(Some(minus_number), None)`,
-// and then only emit the right field (which has a None number, i.e. blank).
+// If `line_index` is `Some`, the half line of that index is painted in state `state`: the left
+// panel then shows the minus line number, the right panel the plus line number (and increments
+// it). If `line_index` is `None` this side of the row is empty (the line in the other panel has no
+// partner, or more rows than its partner): the panel is painted with its line number container,
+// but without any line number and without any line contents.
 #[allow(clippy::too_many_arguments)]
 fn paint_minus_or_plus_panel_line<'a>(
     line_index: Option<usize>,
@@ -427,19 +406,17 @@ fn paint_minus_or_plus_panel_line<'a>(
                 state.clone(),
             )
         } else {
-            let opposite_state = match state {
-                State::HunkMinus(DiffType::Unified, s) => {
-                    State::HunkPlus(DiffType::Unified, s.clone())
-                }
-                State::HunkPlus(DiffType::Unified, s) => {
-                    State::HunkMinus(DiffType::Unified, s.clone())
-                }
+            // The empty half of a row shows no line number and counts nothing, like a
+            // continuation row of a wrapped line.
+            let empty_half_state = match state {
+                State::HunkMinus(DiffType::Unified, _) => State::HunkMinusWrapped,
+                State::HunkPlus(DiffType::Unified, _) => State::HunkPlusWrapped,
                 _ => unreachable!(),
             };
             (
                 &empty_line_syntax_sections,
                 &empty_line_diff_sections,
-                opposite_state,
+                empty_half_state,
             )
         };
 
